@@ -22,3 +22,14 @@ claim("C18",
       "interleaved operations nor capacity arithmetic.",
       "lock identity is type based (all instances of a type share a key); callbacks passed as arguments are assumed to run "
       "synchronously under the caller's locks; go/ssa + go/types of x/tools v0.29.0; rule table lint/internal/rules/c18.go")
+
+claim("C19",
+      "must-lockset dataflow with caller context over a frozen state-item→lock table, lock re-entry and lock-order cycle detection (SSA)",
+      "Decides, for every resolved path from every caller (goroutine starts and function values are lock-free contexts), that the engine "
+      "mutations run under DPoVP.chainLock and that each shared item (signature cache, last-confirm record, unconfirmed block tree and stable "
+      "root, WAL index and offset, term list, evil-deputy map) is only touched under its lock, that the fork head is atomic, that no mutex is "
+      "re-acquired while held and that the lock order is acyclic. Eight accesses violate the table today (unlocked ChainDatabase readers, "
+      "FileQueue.Offset) and are recorded as known findings D15/D16. It does not decide linearizability or the validity of emitted signatures "
+      "as values.",
+      "must-lockset approximation, lock identity per type (not per instance); callbacks passed as call arguments are assumed synchronous; "
+      "races inside goleveldb/metrics are out of scope; go/ssa + go/types of x/tools v0.29.0; rule table lint/internal/rules/c19.go")
